@@ -303,11 +303,11 @@ func runC14(r *core.Run) {
 		e.refusedBuild = s.Flip("refused-build", 0.08)
 		ends = append(ends, e)
 	}
-	sch.Off = true
+	sch.Off.Store(true)
 	for _, e := range ends {
 		e.start(nodes)
 	}
-	sch.Off = false
+	sch.Off.Store(false)
 	faultFree := s.Flip("faultfree", 0.35)
 	nconns := 1 + s.Choose("nconns", 3)
 	deadline := 30 * time.Second
